@@ -9,6 +9,8 @@ from gen import crc_table, constants
 ID = "C16"
 DRIVER = "drv_codec"
 HARNESS = "h_codec"
+QUICK_LEVEL = "thorough"      # the larger case set costs only seconds
+THOROUGH_SEEDS = 4
 GEN = [crc_table.gen, constants.gen]
 TIE = ['Ufw.Tie.Misc']
 GEN_OBLIGATIONS = ["Ufw.Lemmas.Crc.table_length", "Ufw.Lemmas.Crc.table_eq_bitwise (256 closed instances over the regenerated table)",
